@@ -1316,8 +1316,8 @@ def check(ctx):
                              'oracle-ok:monotone', 'oracle-ok:history']
     nh = 300 if quick else 5000
     nf = 15 if quick else 300
-    nsolve = 100 if quick else 2000
-    nmono = 50 if quick else 1000
+    nsolve = 100 if quick else 4000
+    nmono = 50 if quick else 2000
     cases = list(CORPUS_HISTORIES) + [gen_history(ctx.rng, ctx.tier) for _ in range(nh)]
     try:
         correspond_histories(ctx, cases)
